@@ -402,6 +402,8 @@ class Engine:
     def add_bool(self, st, e, truth, where):
         if e[0] == "const" and isinstance(e[1], (bool, int)):
             return bool(e[1]) == truth
+        if e[0] == "binop" and e[1] == "Ne":
+            e, truth = ("binop", "Eq", e[2], e[3]), not truth       # one spelling of (in)equality
         if e[0] == "binop" and e[1] in ("Lt", "Le", "Eq", "Ne") and e[2][0] == "const" and e[3][0] == "const" \
                 and isinstance(e[2][1], int) and isinstance(e[3][1], int):
             a, b = e[2][1], e[3][1]
